@@ -67,9 +67,9 @@ Proof.
     apply in_flat_map. exists y. split; auto. destruct y; simpl in Hy; inversion Hy. left. reflexivity.
 Qed.
 
-Lemma wfb_refs t fo : wfb t fo = true -> NoDup (map href (all_nodes_of fo)).
+Lemma wfb_refs t fo : wfbc t fo = true -> NoDup (map href (all_nodes_of fo)).
 Proof.
-  unfold wfb. rewrite !andb_true_iff. intros (((((_ & _) & _) & Ho) & Hg) & _).
+  unfold wfbc. rewrite !andb_true_iff. intros ((((_ & _) & _) & Ho) & Hg).
   apply refs_nodup; [apply nodup_nat_NoDup; exact Ho|apply nodupb_NoDup'; exact Hg].
 Qed.
 
@@ -81,7 +81,7 @@ Proof.
   apply filter_In in Hyr as [Hyr _]. apply in_map_iff. eauto.
 Qed.
 
-Lemma genome_refs_nodup t fo X : wfb t fo = true -> NoDup (genome_refs fo X).
+Lemma genome_refs_nodup t fo X : wfbc t fo = true -> NoDup (genome_refs fo X).
 Proof. intros H. rewrite genome_refs_filter. apply NoDup_map_filter. eapply wfb_refs; eauto. Qed.
 
 Lemma NoDup_map_inj_in {X Y} (f : X -> Y) l x y :
@@ -113,14 +113,14 @@ Qed.
 
 Definition ANs (A : taxon) (fo : forest) : list hog := flat_map (anodes A) (fo_roots fo).
 
-Lemma ANs_filter t fo A : wfb t fo = true -> ANs A fo = filter (at_tax A) (all_nodes_of fo).
+Lemma ANs_filter t fo A : wfbc t fo = true -> ANs A fo = filter (at_tax A) (all_nodes_of fo).
 Proof.
   intros Hwf. unfold ANs, all_nodes_of. rewrite filter_flat_map.
   apply flat_map_Forall_ext. pose proof (wfb_roots _ _ Hwf) as Hr. rewrite Forall_forall in *.
   intros h Hh. eapply anodes_filter; eauto.
 Qed.
 
-Lemma genome_refs_ANs t fo A : wfb t fo = true -> genome_refs fo A = map href (ANs A fo).
+Lemma genome_refs_ANs t fo A : wfbc t fo = true -> genome_refs fo A = map href (ANs A fo).
 Proof. intros H. rewrite genome_refs_filter, (ANs_filter t); auto. Qed.
 
 (* ---------- the up-map, decomposed ---------- *)
@@ -129,7 +129,7 @@ Definition Rnone (A D : taxon) (fo : forest) : list entry :=
 Definition Rsome (A D : taxon) (fo : forest) : list entry :=
   flat_map (fun ho => map (tag ho) (dn D false ho)) (ANs A fo).
 
-Lemma upmap_decomp t fo A D : wfb t fo = true -> A <> D ->
+Lemma upmap_decomp t fo A D : wfbc t fo = true -> A <> D ->
   Permutation (upmap fo A D) (Rnone A D fo ++ Rsome A D fo).
 Proof.
   intros Hwf HAD. rewrite upmap_td. unfold Rnone, Rsome, ANs.
@@ -203,7 +203,7 @@ Proof.
   - intros (ho & Hho & -> & Hc). exists ho. split; auto. destruct (c ho); [lia|]. left. reflexivity.
 Qed.
 
-Lemma ANs_wf t fo A ho : wfb t fo = true -> In ho (ANs A fo) -> wf_node t ho = true.
+Lemma ANs_wf t fo A ho : wfbc t fo = true -> In ho (ANs A fo) -> wf_node t ho = true.
 Proof.
   intros Hwf Hin. unfold ANs in Hin. apply in_flat_map in Hin as (r & Hr & Hin).
   pose proof (wfb_roots _ _ Hwf) as Hroots. rewrite Forall_forall in Hroots. specialize (Hroots r Hr).
@@ -217,7 +217,7 @@ Qed.
 
 (* ---------- C05 ---------- *)
 Theorem partition t fo A D :
-  wfb t fo = true -> A <> D ->
+  wfbc t fo = true -> A <> D ->
   let m := hogmap fo A D in
   Permutation (genome_refs fo D)
               (hm_gain m ++ map snd (hm_retained m) ++ List.concat (map snd (hm_dup m))) /\
@@ -341,7 +341,7 @@ Proof.
 Qed.
 
 Theorem meaning t fo A D :
-  wfb t fo = true -> A <> D ->
+  wfbc t fo = true -> A <> D ->
   let m := hogmap fo A D in
   (forall a, In a (hm_gain m) <->
              exists r hy b, In r (fo_roots fo) /\ In (hy, b) (gains A D false r) /\ a = href hy) /\
@@ -437,7 +437,7 @@ Lemma concat_length {X} (l : list (list X)) : List.length (List.concat l) = list
 Proof. induction l as [|x r IH]; simpl; [reflexivity|]. now rewrite app_length, IH. Qed.
 
 Theorem sizes t fo A D :
-  wfb t fo = true -> A <> D ->
+  wfbc t fo = true -> A <> D ->
   let m := hogmap fo A D in
   List.length (genome_refs fo D) =
     List.length (hm_gain m) + List.length (hm_retained m) + list_sum (map (fun e => List.length (snd e)) (hm_dup m)) /\
